@@ -84,6 +84,36 @@ var c10Victims = []string{
 	`BEGIN { a = []; b = []; a.push(b.push(1)); print a.length(), b.length() }`,
 }
 
+// evaluation order inside one expression: the values of an object / array literal, call arguments and
+// print arguments have side effects or fail; the observable order must be the same on every run
+var c10OrderPrograms = []string{
+	`BEGIN { q = [1, 2, 3, 4, 5, 6, 7, 8, 9]; o = {a: q.popfirst(), b: q.popfirst(), c: q.popfirst(), d: q.popfirst(), e: q.popfirst(), f: q.popfirst(), g: q.popfirst(), h: q.popfirst()}; print o, q }`,
+	`BEGIN { i = 0; o = {z: i++, y: i++, x: i++, w: i++, v: i++, u: i++, t: i++}; print o, i }`,
+	`function say(x) { print "say", x; return x } BEGIN { o = {b: say(1), a: say(2), c: say(3), d: say(4), e: say(5), f: say(6)}; print o }`,
+	`function stop() { exit } BEGIN { print "start"; o = {a: 1, b: stop(), c: 1 / 0, d: nosuch(), e: 2}; print "no" }`,
+	`function say(x) { print "say", x; return x } BEGIN { o = {a: say(1), b: 1 / 0, c: say(3), d: say(4), e: say(5)}; print "no" }`,
+	`{ o = {a: $.q.pop(), b: $.q.pop(), c: $.q.length(), d: $.q.pop(), e: $.q.length()}; print o, $ }`,
+	`BEGIN { i = 0; a = [i++, i++, i++, i++, i++, i++]; print a, i }`,
+	`function f(a, b, c, d, e) { return [a, b, c, d, e] } BEGIN { i = 0; print f(i++, i++, i++, i++, i++), i }`,
+	`BEGIN { i = 0; print i++, i++, i++, i++, i++ }`,
+	`{ o = {}; o[$.q.pop()] = $.q.pop(); print o, $ }`,
+	`BEGIN { o = {a: {x: 1, y: 2, z: 3}, b: {p: 1, q: 2, r: 3, s: 4, t: 5}}; for (k, v in o) { for (k2 in v) { n = n k k2 } } print n }`,
+	`BEGIN { a = {}; a.self = a; a.r = /x/; a.f = 1; print json(a) }`,
+}
+
+// names of builtins used as variables: every run has builtins of its own
+var c10BuiltinAssigners = []string{
+	`BEGIN { num = 0; num++; print num }`,
+	`BEGIN { json = "x"; print json }`,
+	`BEGIN { printf = 1; printf += 2; print printf }`,
+	`{ num = $.n; json = $; printf = 0 }`,
+}
+
+var c10BuiltinVictims = []string{
+	`BEGIN { print num("12") + 1, json([1]); printf("%s|%5s\n", "x", "y") }`,
+	`{ print num("3") * 2 }`,
+}
+
 func c10Keys(c *Ctx, n int) []procKey {
 	rng := rand.New(rand.NewSource(c.Seed*104729 + 7))
 	var keys []procKey
@@ -98,6 +128,28 @@ func c10Keys(c *Ctx, n int) []procKey {
 		}
 	}
 	add(`{ print $ }`, []string{"$.c", "$"}, objDocs[2], false)
+	for _, p := range c10OrderPrograms {
+		add(p, nil, `[{"q":[1,2,3,4,5]},{"q":["a","b","c","d"]}]`, false)
+	}
+	for _, p := range c10BuiltinAssigners {
+		add(p, nil, `[{"n":1},{"n":2}]`, false)
+	}
+	for _, p := range c10BuiltinVictims {
+		add(p, nil, `[{"n":1}]`, false)
+		add(p, []string{"num = $[0].n", "$"}, `[{"n":1}]`, false)
+		add(p, []string{"json = 1", "printf = $"}, `[{"n":1}]`, false)
+	}
+	// good values followed by a malformed one: how many values are processed before the error is part
+	// of the observation
+	for _, tail := range []string{`{"id":`, `[1, 2`, `nul`, `"abc`, `}`, `{"id":13}x`} {
+		var sb strings.Builder
+		for i := 1; i <= 12; i++ {
+			fmt.Fprintf(&sb, "{\"id\":%d,\"v\":[%d,%d]}\n", i, i, i*2)
+		}
+		sb.WriteString(tail)
+		add(`{ print $.id, $.v } END { print "end" }`, nil, sb.String(), false)
+		add(`{ n++; print n, $ }`, nil, strings.Repeat("[1,2,3] ", 150)+tail, false)
+	}
 	for _, p := range c10Polluters {
 		add(p, nil, `[1]`, true)
 	}
